@@ -469,7 +469,108 @@ def run_ctx(case, rec):
     return tuple(obs)
 
 
+def gen_multi(ctx):
+    for disp in ('sync', 'async'):
+        for order in ('strict-first', 'plain-first'):
+            yield dict(part='multi', disp=disp, order=order)
+        for v in ('base', 'js', 'pd'):
+            yield dict(part='viewpred', disp=disp, validator=v)
+
+
+def run_multi(case, rec):
+    """several validator OBJECTS in one process, configured differently: the configuration of one must not become the
+    default of another (constructor arguments and per-method arguments)"""
+    import jsonschema as _js
+    is_async = case['disp'] == 'async'
+    log = []
+    schema = {'type': 'object', 'properties': {'h': {'type': 'string', 'format': 'ipv4'}}, 'required': ['h']}
+
+    def mk(name):
+        ns = {'_log': log}
+        exec('%sdef %s(h):\n    _log.append((%r, h))\n    return h\n' % ('async ' if is_async else '', name, name), ns)
+        return ns[name]
+
+    def build_strict():
+        return vjs.JsonSchemaValidator(format_checker=_js.FormatChecker()).validate(schema=dict(schema))(mk('strict'))
+
+    def build_plain():
+        return vjs.JsonSchemaValidator().validate(schema=dict(schema))(mk('plain'))
+
+    def build_d4():
+        return vjs.JsonSchemaValidator(cls=_js.Draft4Validator).validate(schema=dict(schema))(mk('d4'))
+    fns = [build_strict(), build_d4(), build_plain()] if case['order'] == 'strict-first' else [build_plain(), build_d4(), build_strict()]
+    d = pjrpc.server.AsyncDispatcher() if is_async else pjrpc.server.Dispatcher()
+    for f in fns:
+        d.add(f, name=f.__name__)
+    obs = []
+    # (method, argument) -> executed?
+    table = [('plain', 'not-an-ip', True), ('strict', 'not-an-ip', False), ('strict', '1.2.3.4', True), ('plain', '1.2.3.4', True),
+             ('d4', 'not-an-ip', True), ('plain', 5, False), ('strict', 5, False), ('plain', 'not-an-ip', True)]
+    for name, arg, accept in table:
+        del log[:]
+        r = dispatch(d, is_async, json.dumps({'jsonrpc': '2.0', 'id': 1, 'method': name, 'params': [arg]}))
+        resp = json.loads(r[0])
+        rec.transitions += 1
+        code = resp.get('error', {}).get('code') if 'error' in resp else None
+        ok = (code is None and len(log) == 1) if accept else (code == -32602 and not log)
+        rec.outcomes['multi:%s' % ('ok' if ok else 'BAD')] += 1
+        if not ok:
+            rec.violation('C14:jsonschema:validator objects influence each other (%s)' % (
+                'conforming call refused' if accept else 'non-conforming call executed'), dict(case, method=name, arg=arg),
+                expected='executed' if accept else '-32602', observed=resp)
+        obs.append(ok)
+    return tuple(obs)
+
+
+def run_viewpred(case, rec):
+    """a class based view method under a validator whose exclusion predicate also matches the (unannotated) `self`"""
+    import inspect
+
+    from pjrpc.server.validators import BaseValidator
+    is_async = case['disp'] == 'async'
+    log = []
+    pred = lambda name, ann, default: ann is inspect.Parameter.empty     # noqa - matches self and dep
+    v = {'base': BaseValidator, 'js': vjs.JsonSchemaValidator, 'pd': vpd.PydanticValidator}[case['validator']](exclude_param=pred)
+
+    class View(pjrpc.server.ViewMixin):
+        def __init__(self, context=None):
+            super().__init__()
+
+        def vm(self, a: int, b: int = 2, dep=None):
+            log.append(dict(a=a, b=b, dep=dep))
+            return [a, b]
+    if case['validator'] == 'js':
+        v.validate(schema={'type': 'object', 'properties': {'a': {'type': 'integer'}, 'b': {'type': 'integer'}}})(View.vm)
+    else:
+        v.validate(View.vm)
+    d = pjrpc.server.AsyncDispatcher() if is_async else pjrpc.server.Dispatcher()
+    d.registry.view(View)
+    typed = case['validator'] != 'base'
+    table = [([1], True, dict(a=1, b=2)), ([1, 3], True, dict(a=1, b=3)), ({'a': 1}, True, dict(a=1, b=2)), ({'a': 1, 'b': 4}, True, dict(a=1, b=4)),
+             ([], False, None), ({'b': 1}, False, None), ({'a': 1, 'dep': 'x'}, False, None), ([1, 2, 'x'], False, None),
+             ({'a': 1, 'self': 0}, False, None), ({'a': 'x'}, not typed, dict(a='x', b=2))]
+    obs = []
+    for params, accept, seen in table:
+        del log[:]
+        r = dispatch(d, is_async, json.dumps({'jsonrpc': '2.0', 'id': 1, 'method': 'vm', 'params': params}))
+        resp = json.loads(r[0])
+        rec.transitions += 1
+        code = resp.get('error', {}).get('code') if 'error' in resp else None
+        if accept:
+            ok = code is None and len(log) == 1 and log[0]['a'] == seen['a'] and log[0]['b'] == seen['b'] and log[0]['dep'] is None
+        else:
+            ok = code == -32602 and not log
+        rec.outcomes['viewpred:%s' % ('ok' if ok else 'BAD')] += 1
+        if not ok:
+            rec.violation('C14:view method with an exclusion predicate (%s validator):%s' % (
+                case['validator'], 'conforming call refused / arguments changed' if accept else 'call that must be refused was not'),
+                dict(case, params=params), expected=seen if accept else '-32602', observed=dict(response=resp, saw=list(log)))
+        obs.append(ok)
+    return tuple(obs)
+
+
 def gen_cases(ctx):
+    yield from gen_multi(ctx)
     yield from gen_ctx(ctx)
     yield from gen_pd(ctx)
     yield from gen_js(ctx)
@@ -478,7 +579,7 @@ def gen_cases(ctx):
 def run_case(case, rec):
     from mc.core import Recorder
     r = Recorder()
-    obs = run_js(case, r) if case['part'] == 'js' else (run_ctx(case, r) if case['part'] == 'ctx' else run_pd(case, r))
+    obs = {'js': run_js, 'ctx': run_ctx, 'pd': run_pd, 'multi': run_multi, 'viewpred': run_viewpred}[case['part']](case, r)
     r.states += 1
     r.traces += 1
     r.nontrivial_n += 1
@@ -505,7 +606,7 @@ def replay(doc):
     from mc.core import Recorder, jdump
     rec = Recorder()
     c = doc['case']
-    case = {k: c[k] for k in ('part', 'sig', 'frags', 'required', 'addl', 'excluded', 'anns', 'coerce', 'validator', 'first', 'disp', 'ann') if k in c}
+    case = {k: c[k] for k in ('part', 'sig', 'frags', 'required', 'addl', 'excluded', 'anns', 'coerce', 'validator', 'first', 'disp', 'ann', 'order') if k in c}
     run_case(case, rec)
     vs = [v for v in rec.violations if v['case'].get('input') == c.get('input') and v['case']['disp'] == c['disp']] or rec.violations
     for v in vs[:5]:
